@@ -44,6 +44,7 @@ theorem quiet_keeps (s : Sess) (c : Call) (id : Nat) (hq : c.quiet = true) (h : 
   | startUtt => simp [Call.quiet] at hq
   | newSearch => simp [Call.quiet] at hq
   | other => simp [Sess.step]
+  | refused => simp [Sess.step]
 
 theorem quiet_list_keeps (ops : List Call) (s : Sess) (id : Nat) (hq : ∀ c ∈ ops, c.quiet = true)
     (h : s.cache.dag = some (s.frame, id)) :
@@ -70,7 +71,8 @@ theorem quiet_list_keeps (ops : List Call) (s : Sess) (id : Nat) (hq : ∀ c ∈
 /-- **C11, cache after other calls.** A lattice request returned object `id`.  Whatever public calls follow —
 any number, in any order, of hypothesis / segmentation / N-best / alignment / JSON queries, dictionary additions
 with or without `update`, CMN and configuration accessors, further lattice requests, audio calls that search no
-frame (`Call.quiet`) — the next lattice request returns the very same object, every request in between does too,
+frame, grammar-setting calls that are REFUSED (`Call.refused`: a grammar with a word missing from the dictionary, a JSGF
+that does not parse, an alignment text with an unknown word) (`Call.quiet`) — the next lattice request returns the very same object, every request in between does too,
 and the cache still holds it.  (`ops` ranges over all call lists; the only hypothesis is the decidable
 `Call.quiet` of each call, which the driver evaluates on the trace of the calls the harness made.) -/
 theorem C11_cache_same_object_after_calls (s : Sess) (b b' : Bool) (id : Nat) (ops : List Call)
@@ -114,7 +116,50 @@ theorem C11_cache_api_classes :
   · intro a; simp [Call.ofApi, audioApi, Call.quiet]
   · intro a; simp [Call.ofApi]
 
+/-- **C11, cache: a refused grammar is a no-op.** A grammar-setting call that returns an error leaves the session —
+frame count, cached lattice, the counter of objects handed out — exactly as it was and hands out nothing; by its API
+name (`…_refused`, the name the harness prints for a call that returned −1) it is classified as such and is quiet, so
+`C11_cache_same_object_after_calls` quantifies over call lists that contain any number of refused grammar changes
+between the two requests.  The names are those of the four grammar-setting members of `newSearchApi` (whose accepted calls are `newSearch`, not
+quiet: `C11_cache_api_classes`) with `_refused` appended. -/
+theorem C11_cache_refused_grammar_is_noop :
+    (∀ s : Sess, s.step .refused = (s, none)) ∧
+    (∀ n ∈ refusedApi, ∀ a, Call.ofApi n a = some .refused) ∧
+    Call.quiet .refused = true ∧
+    refusedApi = (newSearchApi.take 4).map (· ++ "_refused") := by
+  refine ⟨fun s => rfl, ?_, rfl, by decide⟩
+  · intro n hn a
+    simp only [refusedApi, List.mem_cons, List.not_mem_nil, or_false] at hn
+    rcases hn with h | h | h | h <;> subst h <;> simp [Call.ofApi, audioApi, newSearchApi, otherApi, refusedApi]
+
+/-- **C11, cache across refused grammar changes** (the instance of `C11_cache_same_object_after_calls` the error path
+needs, stated on its own): after a request returned object `id`, any number of refused grammar-setting calls, mixed with
+any other quiet calls, and the next request returns `id` again. -/
+theorem C11_cache_same_object_after_refused_grammar (s : Sess) (b b' : Bool) (id : Nat) (pre post : List Call) (k : Nat)
+    (hpre : ∀ c ∈ pre, c.quiet = true) (hpost : ∀ c ∈ post, c.quiet = true)
+    (h : (s.step (.lattice b)).2 = some (some id)) :
+    (((s.step (.lattice b)).1.after (pre ++ List.replicate k .refused ++ post)).step (.lattice b')).2 = some (some id) := by
+  refine (C11_cache_same_object_after_calls s b b' id _ ?_ h).1
+  intro c hc
+  simp only [List.mem_append, List.mem_replicate] at hc
+  rcases hc with (hc | ⟨_, rfl⟩) | hc
+  · exact hpre c hc
+  · rfl
+  · exact hpost c hc
+
 /-! ### non-vacuity -/
+
+-- a request, a refused grammar, a query, another refused grammar, a request: same object; an ACCEPTED grammar: no object
+example :
+    let s2 := ((Sess.init.step .startUtt).1.step (.audio 120)).1
+    ((((s2.step (.lattice true)).1.after [.refused, .other, .refused]).step (.lattice true)).2,
+     (((s2.step (.lattice true)).1.after [.newSearch]).step (.lattice false)).2) = (some (some 0), some none) := by decide
+
+example : ((["decoder_start_utt", "decoder_process_int16", "decoder_lattice", "decoder_set_jsgf_string_refused",
+      "decoder_set_fsg_refused", "decoder_lattice", "decoder_set_jsgf_string", "decoder_lattice"].zip
+      [0, 120, 1, 0, 0, 1, 0, 0]).mapM fun (n, a) => Call.ofApi n a).map (fun cs => (Sess.init.outputs cs, quietFlags true cs)) =
+    some ([some 0, some 0, none], [false, true, false]) := by decide
+
 
 -- a request, then hyp / add_word(update) / N-best / an `end_utt` that flushed nothing / another request: same object
 example :
